@@ -10,6 +10,10 @@ spec/C09:
                    each side x tag / nonce lengths x forgeries);  ApiTrace: TV - TLC recomputes the expected bytes of every
                    call from CipherModes over the table of primitive evaluations and decides class / value / length /
                    round trip.
+  CallHist         the module as a whole is STATELESS (only a caller's Hash / KeyDerivator / Crc objects hold state): GEN form
+                   for histories of calls - all pairs <<any call, asserted call>> of a group x slot relations (same key / IV /
+                   data or not), and simulated longer walks with interleaved objects;  HistTrace: TV - every call of a history
+                   executed in ONE process is decided against the term of that call alone (harness/c09_hist.py).
 Python only concretises, executes the real wrappers, evaluates primitives (lib/c09ref.py) and records.
 """
 import json
@@ -525,7 +529,8 @@ def long_cases(r, n):
 
 
 # ------------------------------------------------------------------ Counter: replay of behaviours on real objects
-def replay_counter(job):
+def _counter_steps(job):
+    """Generator: performs one operation of the history per next(); its return value is the trace."""
     tid, hist, salt = job
     from spsdk.crypto.symmetric import Counter
     from spsdk.utils.misc import Endianness
@@ -564,7 +569,41 @@ def replay_counter(job):
                     break
         ev["out"] = read()
         evs.append(ev)
+        yield
     return {"id": tid, "ev": evs}
+
+
+def _finish(gen):
+    try:
+        while True:
+            next(gen)
+    except StopIteration as e:
+        return e.value
+
+
+def replay_counter(job):
+    return _finish(_counter_steps(job))
+
+
+def replay_counter_pair(jobs):
+    """Two Counter objects alive in the same process, their histories interleaved (seeded); each object's projection is a trace of its own:
+    a counter is a function of the operations made on THAT object."""
+    ja, jb = jobs
+    r = rng(PROP, "counter-pair", ja[0], jb[0])
+    live = [_counter_steps(ja), _counter_steps(jb)]
+    res = [None, None]
+    while any(g is not None for g in live):
+        i = r.randrange(2)
+        if live[i] is None:
+            i = 1 - i
+        try:
+            next(live[i])
+        except StopIteration as e:
+            res[i] = e.value
+            live[i] = None
+    for i in range(2):
+        res[i]["pair"] = {"jobs": [list(ja), list(jb)], "me": i}
+    return res
 
 
 def random_history(r, n):
@@ -842,6 +881,61 @@ def canary_counter():
     return 1, 3
 
 
+def canary_hist():
+    """A history (refused call, then the same call accepted; two interleaved Hash objects; a KeyDerivator; a forgery) with the
+    reference results as observations must be accepted; with one result that depends on an EARLIER call it must be rejected."""
+    import c09_hist as H
+
+    def c(f, x="", kl=0, ml=0, n=0, ks=1, i=1, ds=1, o=0, dom=True):
+        return {"f": f, "x": x, "kl": kl, "ml": ml, "n": n, "ks": ks, "is": i, "ds": ds, "o": o, "dom": dom}
+
+    hist = [c("aes_ecb_encrypt", kl=16, ml=17, dom=False), c("aes_ecb_encrypt", kl=16, ml=16),
+            c("Hash", "sha256", o=1), c("Hash.update", ml=33, o=1), c("Hash", "sha1", o=2), c("Hash.update", ml=33, ds=2, o=2), c("Hash.update", ml=64, ds=2, o=1),
+            c("Hash.finalize", o=1), c("Hash.finalize", o=2),
+            c("KeyDerivator", "r2", kl=16, ml=4, n=128, o=1), c("KeyDerivator.get_block_key", ml=3, ds=2, o=1),
+            c("aes_ccm_decrypt", "forged", kl=16, ml=17, n=8)]
+    t = H.run_history(("good", hist, 0))
+    ret = lambda b: {"k": "ret", "v": B(b), "x": ""}  # noqa: E731
+    for e in t["ev"]:  # the observations of the canary are the REFERENCE results (the canary must not depend on the tree under test)
+        if e["fn"] in ("Hash", "Hash.update"):
+            e["out"] = ret(b"")
+        elif e["fn"] == "aes_ccm_decrypt":
+            e["out"] = {"k": "err", "v": [], "x": "SPSDKError"}
+        elif e["c"]["dom"]:
+            e["out"] = ret(bytes(e["ref"]))
+        else:
+            e["out"] = {"k": "exc", "v": [], "x": "ValueError"}
+    good = t
+    bad = []
+
+    def variant(name, fn):
+        b = json.loads(json.dumps(good))
+        b["id"] = name
+        fn(b["ev"])
+        bad.append(b)
+
+    def stale(ev):  # the accepted ECB call returns the stream shifted by the byte the refused call left behind
+        ev[1]["out"]["v"] = ev[1]["out"]["v"][1:] + [0]
+
+    def crossed(ev):  # the two Hash objects return each other's digest (same length would need the same algorithm: use the value clause on object 1)
+        ev[7]["out"]["v"] = B(__import__("hashlib").sha256(bytes(good["ev"][3]["a"]["d"])).digest())  # digest without the second update
+
+    def kd(ev):
+        ev[10]["out"]["v"][0] ^= 1
+
+    def forged(ev):
+        ev[11]["out"] = ret(bytes(17))
+
+    for name, fn in (("bad-stale", stale), ("bad-object", crossed), ("bad-kd", kd), ("bad-forgery", forged)):
+        variant(name, fn)
+    _, res = tlc.tv("C09", "HistTrace", [good] + bad, env={"CRC_MAX": CRC_MAX})
+    rej = rej_of(res)
+    want = {"bad-stale": 1, "bad-object": 7, "bad-kd": 10, "bad-forgery": 11}
+    if {k: x[0] for k, x in rej.items()} != want or any(x[3] in ("oracle", "concretise") for x in rej.values()):
+        raise Machinery(f"history canary failed: rejected {rej}; expected exactly {want}")
+    return 1, len(bad)
+
+
 # ------------------------------------------------------------------ run
 def side_by_side(fns):
     """Run independent TLC jobs concurrently in forked workers (each with its own range of lib.tlc's scratch numbering)."""
@@ -874,19 +968,26 @@ def run(tier):
     # ---- canaries (also bind reference + spec to published vectors and to the repository's frozen artefacts)
     g1, b1 = canary_api()
     g2, b2 = canary_counter()
+    g3, b3 = canary_hist()
     v.extra["canary"] = (f"API: {g1} known-answer / anchor traces accepted (RFC 3394, SP 800-38A CBC+CTR, RFC 4493, RFC 3610, IEEE 1619, RFC 4231, RFC 5869, "
-                         f"3 CRC check values, SB3.1 KDF vector, RT5xx SB2.1 key blob), {b1} corrupted copies rejected; Counter: {g2} accepted, {b2} corrupted rejected")
+                         f"3 CRC check values, SB3.1 KDF vector, RT5xx SB2.1 key blob), {b1} corrupted copies rejected; Counter: {g2} accepted, {b2} corrupted rejected; "
+                         f"history of calls: {g3} accepted, {b3} copies with a result that depends on an earlier call rejected")
     say(f"[C09] canaries ok {v.timer.s()}s")
 
     # ---- MC (lemmas of the R-spec) and GEN (abstract cases of the wrapper API) - four independent TLC runs, side by side
+    import c09_hist as H
+
+    walk_len, walk_num = (10, 150) if quick else (14, 1500)
     acts = ("NewCase", "IncPlain", "IncWrapping", "DoRead")
     runs = [
         lambda: tlc.mc("C09", "ModesMC", "ModesMC.cfg", workers=4, coverage=False),
         lambda: tlc.mc("C09", "CounterMC", "CounterMC.cfg" if quick else "CounterMC_thorough.cfg", workers=4 if quick else 8, require_actions=acts),
         lambda: tlc.mc("C09", "CrcMC", "CrcMC.cfg" if quick else "CrcMC_thorough.cfg", workers=1 if quick else 4, coverage=False),
         lambda: tlc.run("C09", "WrapperApi", "WrapperApi.cfg" if quick else "WrapperApi_thorough.cfg", workers=1, heap="8g"),
+        lambda: H.generate("pairs", not quick),
+        lambda: H.generate("walk", not quick, walk_len, walk_num),
     ]
-    mc1, mc2, mc3, gen = side_by_side(runs)
+    mc1, mc2, mc3, gen, (gp, pairs), (gw, walks) = side_by_side(runs)
     for x in (mc1, mc2, mc3, gen):
         v.add_mc(x)
     crc_cases = [c for c in mc3.json_prints() if "alg" in c]
@@ -933,6 +1034,36 @@ def run(tier):
         say(f"[C09] {b0 + len(traces)}/{len(jobs)} cases executed on the real wrappers and validated {v.timer.s()}s")
         del traces
 
+    # ---- histories of calls in one process (CallHist generates, HistTrace decides)
+    v.add_mc(gp)
+    v.add_mc(gw)
+    if len(pairs) < 3000 or len(walks) != walk_num:
+        raise Machinery(f"CallHist produced {len(pairs)} pairs and {len(walks)} walks")
+    second = {(h[1]["f"], h[1]["x"], h[1]["kl"], h[1]["ml"]) for h in pairs}
+    refused_first = sum(1 for h in pairs if not h[0]["dom"])
+    if not refused_first or any(not h[1]["dom"] for h in pairs):
+        raise Machinery("CallHist pairs: no refused first call / unasserted second call")
+    hjobs = [(i, h, 0) for i, h in enumerate(pairs + walks)]
+    htraces = H.execute(hjobs)
+    v.count(len(htraces))
+    n_ref = 0
+    for t in htraces:
+        if any(e["out"]["k"] == "ret" for e in t["ev"][1:]):
+            v.nontrivial("hist:" + json.dumps(t["hist"], sort_keys=True))
+        n_ref += any(e["out"]["k"] != "ret" and t["ev"][j + 1]["out"]["k"] == "ret" for j, e in enumerate(t["ev"][:-1]))
+    if n_ref < 300:
+        raise Machinery(f"only {n_ref} histories in which a refused call is followed by an accepted one")
+    s = json.loads(json.dumps(htraces[len(pairs) // 7]))
+    for e in s["ev"]:
+        e["tab"] = f"<{len(e['tab'])} primitive evaluations>"
+    v.sample(s)
+    say(f"[C09] executed {len(htraces)} histories of calls ({len(pairs)} pairs, {len(walks)} walks of {walk_len}; {n_ref} with an accepted call right after a refused one), "
+        f"each in one fresh process {v.timer.s()}s")
+    H.validate(v, htraces, "hist")
+    v.traces(len(htraces))
+    say(f"[C09] histories validated {v.timer.s()}s")
+    del htraces
+
     # ---- Counter
     depth = 3
     g = tlc.run("C09", "CounterGen", "CounterGen.cfg", env={"GEN_DEPTH": depth}, workers=1, deadlock=False, heap="8g")
@@ -949,6 +1080,12 @@ def run(tier):
     hists += [random_history(r, r.randrange(1, 10)) for _ in range(1500 if quick else 60000)]
     cjobs = [(i, h, 0) for i, h in enumerate(hists)]
     ctraces = pmap(replay_counter, cjobs, chunksize=256)
+    # two objects alive at the same time, operations interleaved: each object's projection must still be a behaviour of Counter.tla
+    n_pairs = 500 if quick else 10000
+    base = len(cjobs)
+    pjobs = [((base + 2 * i, random_history(r, r.randrange(2, 10)), 0), (base + 2 * i + 1, random_history(r, r.randrange(2, 10)), 0)) for i in range(n_pairs)]
+    for ta, tb in pmap(replay_counter_pair, pjobs, chunksize=64):
+        ctraces += [ta, tb]
     v.count(len(ctraces))
     for t in ctraces:
         v.nontrivial("counter:" + json.dumps([[e.get("op"), e.get("nonce", [0] * 16)[12:], e.get("cv"), e.get("k"), e.get("kg"), e.get("cvg"), e.get("be")] for e in t["ev"]]))
@@ -961,11 +1098,16 @@ def run(tier):
         f"API cases = initial states of WrapperApi ({len(cases) - len(crc_cases)} abstract cases: key size x message-length class x every optional parameter given / defaulted "
         f"independently on the encrypting and decrypting side x nonce / tag lengths x refused lengths x forgeries, 12 families) + all CRC messages of CrcMC + seeded short CRC "
         f"messages, each concretised {reps}x with seeded random bytes, + {len(jobs) - n_enum} sampled long-message cases; counter behaviours = all histories of length {depth} over the "
-        "CounterMC menus (TLC exhaustive)" + ("" if quick else " + 6000 simulated histories of length 12") + " + seeded random histories with arbitrary 32-bit words; a case is "
+        "CounterMC menus (TLC exhaustive)" + ("" if quick else " + 6000 simulated histories of length 12") + " + seeded random histories with arbitrary 32-bit words + "
+        f"{n_pairs} pairs of seeded histories on two objects alive in one process with interleaved operations (each projection validated); "
+        f"histories of calls = all {len(pairs)} 2-step behaviours of CallHist (first call: any call of a group's menu, accepted or refused; second call: every asserted call "
+        f"of the group ({len(second)} distinct); slot relation same key+IV+data / same key / same data / other IV / nothing shared; groups ecb+key store, cbc aes+sm4, ctr, xts, ccm, "
+        f"key wrap, cmac+SB3.1 KDF, hash+hmac+hkdf, crc) + {len(walks)} simulated behaviours of {walk_len} calls (within a group, over all groups, and centred on two interleaved "
+        "Hash / KeyDerivator objects), each executed in one fresh process; a history is non-trivial if a call after the first returned a value; a case is "
         "non-trivial if at least one real call returned a value or an SPSDK error; distinct by abstract case / by operation sequence with arguments"
     )
     v.cov["exhaustive"] = True
-    v.cov["checker_cmd"] = "TLC ModesMC, CounterMC, CrcMC (lemmas) ; TLC WrapperApi, CounterGen (generation) ; TLC ApiTrace, CounterTrace (decide every observation)"
+    v.cov["checker_cmd"] = "TLC ModesMC, CounterMC, CrcMC (lemmas) ; TLC WrapperApi, CounterGen, CallHist (generation) ; TLC ApiTrace, CounterTrace, HistTrace (decide every observation)"
     v.cov["trusted_base"] = ["one-block AES (cryptography AES-ECB called on single 16-byte blocks)", "pure-Python SM4 block function (GB/T 32907 vector)", "hashlib",
                              "TLC", "published vectors + 2 frozen repository artefacts in anchors/C09/vectors.json"]
     v.assumptions += [
@@ -978,6 +1120,9 @@ def run(tier):
         "key-store constants: sb_kek is anchored by unwrapping the key blob of a golden RT5xx SB2.1 file of the repository; hmac / enc_image constants are the documented "
         "AES-ECB(master, 00.. / 01..||02..) construction named in the property's anchors, without an independent artefact",
         "SB3.1 derivation-data layout is anchored by the repository's frozen vectors (tests/sbfile/sb31/test_functions.py at the pinned commit), not by NXP documentation",
+        "histories of calls: the reference model of the module has no state besides the caller's Hash / KeyDerivator objects; calls outside the asserted domain (refused lengths, "
+        "bad key sizes, operations on a finalized Hash object) are executed as part of a history but their own outcome is not asserted - only that every later asserted call still "
+        "returns the term of its own arguments; histories are run in one process each, threads are not exercised",
         "for messages longer than 256 bytes (CRC: 24 bytes) TLC compares the observation with the bytes of the Python reference constructions (bound to the spec on every shorter case) "
         "instead of recomputing them from the primitive table",
     ]
@@ -990,8 +1135,13 @@ def replay(path):
     body = json.load(open(path))
     w = body["witness"]
     if w["kind"] == "counter":
-        hist = [{k: x for k, x in e.items() if k not in ("out", "beg")} for e in w["trace"]["ev"]]
-        t = replay_counter((0, hist, 0))
+        if "pair" in w["trace"]:
+            pr = w["trace"]["pair"]
+            t = replay_counter_pair([tuple(j) for j in pr["jobs"]])[pr["me"]]
+            t["id"] = 0
+        else:
+            hist = [{k: x for k, x in e.items() if k not in ("out", "beg")} for e in w["trace"]["ev"]]
+            t = replay_counter((0, hist, 0))
         rej = rej_of(tlc.tv("C09", "CounterTrace", [t])[1])
         say(json.dumps(t)[:1500])
         if rej:
@@ -999,6 +1149,22 @@ def replay(path):
             say(f"  key=C09/Counter/{counter_class(t, rej[0][0])}: rejected at event {rej[0][0] + 1}")
             return 1
         say("replay: trace accepted by the spec")
+        return 0
+    if w["kind"] == "history":
+        import c09_hist as H
+
+        t = H.run_history((0, w["hist"], w.get("salt", 0)))
+        rej = rej_of(tlc.tv("C09", "HistTrace", [t], env={"CRC_MAX": CRC_MAX})[1])
+        for e in t["ev"]:
+            say(json.dumps({k: x for k, x in e.items() if k != "tab"})[:500])
+        if rej:
+            matched, _, fn, clause, exp, got = rej[0]
+            if clause in ("oracle", "concretise"):
+                raise Machinery(f"replay: clause {clause}")
+            say(f"VIOLATION property=C09 replay={path}")
+            say(f"  key={H.hist_key(t, matched, clause, exp, got)}: call {matched + 1} ({fn}) clause '{clause}' (the term of this call alone gives {exp}, observed {got})")
+            return 1
+        say("replay: history accepted by the spec")
         return 0
     case = dict(w["case"])
     if not w["trace"]["ev"][0]["full"]:
